@@ -1,2 +1,3 @@
-SPECIFICATION Spec
+SPECIFICATION TraceSpec
+POSTCONDITION Report
 CHECK_DEADLOCK FALSE
